@@ -69,7 +69,7 @@ def _title(rng):
 
 
 def make(rng, target, lmax=None, shell_order=None, contraction=None, conv_class=None, spin=None, virtuals=None, ghosts=None,
-         nbasis_max=30, with_rdms=False, natom=None, pure_mix=False):
+         nbasis_max=30, with_rdms=False, natom=None, pure_mix=False, force_kinds=None, need_l=()):
     """Return (IOData, features dict). All class choices are drawn when not given."""
     from iodata import IOData
     from iodata.orbitals import MolecularOrbitals
@@ -90,6 +90,8 @@ def make(rng, target, lmax=None, shell_order=None, contraction=None, conv_class=
         for l in range(lmax + 1):
             kinds = [k for (ll, k) in allowed_l if ll == l]
             kind_of[l] = str(rng.choice(kinds)) if kinds else None
+            if force_kinds and l in force_kinds and force_kinds[l] in kinds:
+                kind_of[l] = force_kinds[l]
         allowed_l = [(l, k) for (l, k) in allowed_l if kind_of.get(l) == k]
     natom = natom or int(rng.integers(1, 7))
     atnums = rng.integers(1, 19, size=natom)
@@ -111,6 +113,14 @@ def make(rng, target, lmax=None, shell_order=None, contraction=None, conv_class=
         shells = []
         nb = 0
         tries = 0
+        # shells that must be present (directed cases: e.g. a pure d next to a Cartesian f shell)
+        for l in need_l:
+            ks = [k for (ll, k) in allowed_l if ll == l]
+            if ks:
+                sh = gb.random_shell(rng, centres[len(shells) % len(centres)], lmax=l, lmin=l, contraction="segmented", nprim=1,
+                                     exp_range=(0.3, 3.0), allowed={(l, ks[0])})
+                shells.append(sh)
+                nb += sh.nbasis
         while tries < 200:
             tries += 1
             ic = centres[len(shells) % len(centres)] if len(shells) < len(centres) else int(rng.choice(centres))
